@@ -68,13 +68,13 @@ theorem specSign_swap_adjacent (f : Fermionic) (pre : List (Op R)) (a b : Op R) 
   simp only [List.map_append, List.map_cons]
   by_cases hle : a.site ≤ b.site
   · have hba : natLe (Op.key b).1 (Op.key a).1 = false := by
-      simp only [natLe, Op.key, decide_eq_false_iff_not]; omega
+      simp only [natLe, Op.key]; exact decide_eq_false (by omega)
     have := invSign_swap_adjacent f natLe_totalPreorder (pre.map Op.key) (Op.key b) (Op.key a) (post.map Op.key) hba
     rw [this, ← Int.mul_assoc]
     have hw : f.weight (Op.key b).2 (Op.key a).2 = f.weight a.charge b.charge := weight_comm f _ _
     rw [hw, sgn_mul_self, Int.one_mul]
   · have hab : natLe (Op.key a).1 (Op.key b).1 = false := by
-      simp only [natLe, Op.key, decide_eq_false_iff_not]; omega
+      simp only [natLe, Op.key]; exact decide_eq_false (by omega)
     exact invSign_swap_adjacent f natLe_totalPreorder (pre.map Op.key) (Op.key a) (Op.key b) (post.map Op.key) hab
 
 theorem zsign_mul [Ring R] (s t : Int) (hs : s = 1 ∨ s = -1) (ht : t = 1 ∨ t = -1) (x : R) :
@@ -149,5 +149,95 @@ theorem applyAll_scale (ops : List (Op R)) (c : R) (v : State R) :
   | cons o ops ih => simp only [applyAll, List.foldr_cons] at ih ⊢; rw [ih, applyOp_scale]
 
 end Linear
+
+end YModel.Expect
+
+namespace YModel.Expect
+open YModel
+variable {R : Type}
+
+/-! ### the identity operator -/
+
+section Identity
+variable [CommRing R] (f : Fermionic) (basis : List Charge) (d : Nat) (conj : R → R)
+
+theorem pair_zero (u : State R) (σ : Config) : pair conj u (σ, 0) = 0 := by
+  unfold pair
+  induction u with
+  | nil => rfl
+  | cons a u ih => simp only [List.map_cons, List.sum_cons, ih]; split <;> simp
+
+theorem sum_range_single (x : R) (k : Nat) : ∀ d : Nat, k < d →
+    ((List.range d).map (fun a => if a = k then x else 0)).sum = x
+  | 0, h => by omega
+  | d + 1, h => by
+    rw [List.range_succ, List.map_append, List.sum_append]
+    by_cases hk : k = d
+    · subst hk
+      have : ((List.range k).map (fun a => if a = k then x else (0 : R))).sum = 0 := by
+        apply List.sum_eq_zero
+        intro y hy
+        obtain ⟨a, ha, rfl⟩ := List.mem_map.mp hy
+        have : a < k := List.mem_range.mp ha
+        rw [if_neg (by omega)]
+      simp [this]
+    · have hlt : k < d := by omega
+      rw [sum_range_single x k d hlt]
+      have : d ≠ k := fun h => hk h.symm
+      simp [this]
+
+theorem set_getD_self (σ : Config) (i : Nat) : σ.set i (σ.getD i 0) = σ := by
+  apply List.ext_getElem
+  · simp
+  · intro n h1 h2
+    by_cases hn : i = n
+    · subst hn
+      simp only [List.getElem_set_self]
+      simp [List.getD_eq_getElem?_getD, List.getElem?_eq_getElem h2]
+    · simp [List.getElem_set_ne hn]
+
+theorem stringSign_neutral (n : Charge) (hw : ∀ t, f.weight n t = 0) (i : Nat) (σ : Config) :
+    stringSign f basis n i σ = 1 := by
+  unfold stringSign
+  have : ((σ.take i).map (fun a => f.weight n (basis.getD a []))).sum = 0 := by
+    apply sum_map_zero
+    intro a _
+    exact hw _
+  rw [this]; rfl
+
+/-- an operator with the identity matrix and a neutral charge acts as the identity on a valid term -/
+theorem vdot_applyTerm_identity (o : Op R) (hw : ∀ t, f.weight o.charge t = 0)
+    (hI : ∀ a b, a < d → b < d → entry o.mat a b = if a = b then 1 else 0)
+    (u : State R) (t : Config × R) (ht : t.1.getD o.site 0 < d) :
+    vdot conj u (applyTerm f basis d o t) = pair conj u t := by
+  obtain ⟨σ, α⟩ := t
+  unfold vdot applyTerm
+  simp only [List.map_map]
+  have : ∀ a ∈ List.range d, (pair conj u ∘ fun a =>
+      (σ.set o.site a, zsign (stringSign f basis o.charge o.site σ) (entry o.mat a (σ.getD o.site 0) * α))) a
+      = if a = σ.getD o.site 0 then pair conj u (σ, α) else 0 := by
+    intro a ha
+    have had : a < d := List.mem_range.mp ha
+    simp only [Function.comp, stringSign_neutral f basis o.charge hw, zsign_one, hI a _ had ht]
+    by_cases h : a = σ.getD o.site 0
+    · rw [if_pos h, if_pos h, h, set_getD_self, one_mul]
+    · rw [if_neg h, if_neg h, zero_mul, pair_zero]
+  rw [List.map_congr_left this]
+  exact sum_range_single _ _ d ht
+
+theorem vdot_applyOp_identity (o : Op R) (hw : ∀ t, f.weight o.charge t = 0)
+    (hI : ∀ a b, a < d → b < d → entry o.mat a b = if a = b then 1 else 0)
+    (u v : State R) (hv : ∀ t ∈ v, t.1.getD o.site 0 < d) :
+    vdot conj u (applyOp f basis d o v) = vdot conj u v := by
+  induction v with
+  | nil => rfl
+  | cons t v ih =>
+    have h1 : applyOp f basis d o (t :: v) = applyTerm f basis d o t ++ applyOp f basis d o v := by
+      simp [applyOp, List.flatMap_cons]
+    have h2 : vdot conj u (t :: v) = pair conj u t + vdot conj u v := by simp [vdot]
+    rw [h1, vdot_append, h2, ih (fun t' ht' => hv t' (List.mem_cons_of_mem _ ht')),
+      vdot_applyTerm_identity f basis d conj o hw hI u t (hv t List.mem_cons_self)]
+
+end Identity
 
 end YModel.Expect
